@@ -18,7 +18,9 @@
 // the quick tier; E uses uniform segment sizes).
 //
 // Case format (exact, replayable):
-//   C15c1 <GET|HEAD> cap=<default|max|N> seg=<unsplit|bytes|every:K|cuts:a[,b]> stream=<hex>
+//   C15c1 <GET|HEAD> cap=<default|max|N> [nc=1] seg=<unsplit|bytes|every:K|cuts:a[,b]> stream=<hex>
+// All sigs carry the prefix "client:" (the server-side parts of C15 share clause names; known-finding
+// matching is per (property, clause, sig)).
 #include "C15_client_oracle.hpp"
 #include "bexh.hpp"
 #include <memory>
@@ -304,7 +306,7 @@ struct Engine
           if (ref.msg.fields[i].name != intent.fields[i].name || ref.msg.fields[i].value != intent.fields[i].value)
             bad = "reference field " + std::to_string(i) + " differs";
       if (!bad.empty())
-        rep.violation("harness-internal", "reference-vs-generator", caseText(ctx, unsplit, hexs), bad);
+        rep.violation("harness-internal", "client:reference-vs-generator", caseText(ctx, unsplit, hexs), bad);
     }
 
     // ---- unsplit ----
@@ -315,7 +317,7 @@ struct Engine
     if (plan.neverComplete && d0.outcome == Outcome::Complete)
       base.push_back({"truncated-not-framed", std::string("never-terminated:") + plan.kind, "unterminated stream framed as complete"});
     for (auto &x : base)
-      rep.violation(x.clause, x.sig, caseText(ctx, unsplit, hexs), x.detail);
+      rep.violation(x.clause, "client:" + x.sig, caseText(ctx, unsplit, hexs), x.detail);
     switch (d0.outcome)
     {
     case Outcome::Complete: ++rep.counters["impl_complete"]; break;
@@ -370,7 +372,7 @@ struct Engine
           continue;
         }
         std::string where = regionsOf(ref, seg);
-        rep.violation(clause, x.sig + "@" + where, caseText(ctx, seg, hexs),
+        rep.violation(clause, "client:" + x.sig + "@" + where, caseText(ctx, seg, hexs),
                       (segOnly ? "unsplit feed is framed correctly, this segmentation is not: " : "") + x.detail);
       }
     };
